@@ -20,6 +20,7 @@ for a in "$@"; do
     w:*|x:*) echo "data written by vcmd $*" > "${a:2}" || exit 1 ;;
     h:*) printf "partial" > "${a:2}" || exit 1 ;;
     r:*) cat "${a:2}" > /dev/null || exit 1 ;;
+    p:*) cat "${a:2}" || exit 1 ;;
     e:255) kill -KILL $PPID; sleep 5; exit 1 ;;
     e:*) exit "${a:2}" ;;
   esac
